@@ -22,7 +22,7 @@ EXPLANATION = (
     'index from the history size; (4) every Game::GameState enumerator has an arm in getGameStateString and getPGNResultString.'
     ' (5) the en-passant mask tables are correct for all 8 files and makeMove records an en-passant square only under the mask test (a spurious en-passant square makes rule-equal positions hash differently).'
     ' Added later; (7) the index set, key comparison and claim rule of the repetition scan canClaimDrawRep (finite evaluation of its own init / bound / step expressions for list lengths 0..16 and clocks 0..20); (8) every replayed move on a game position (UCI move list, console move and redo) is followed by fixupEPSquare before its key is read again (found and fixed defects D13, D14).'
-    ' Added later; (9) drawRuleEquals compares side to move, castling rights, en-passant square and the complete placement.')
+    ' Added later; (9) drawRuleEquals compares side to move, castling rights, en-passant square and the complete placement. (10) = C02.12 the en-passant normaliser the history relies on.')
 UNDECIDED = ('equality of hash keys for rule-equal positions beyond the structural clauses (value-level); the index arithmetic of canClaimDrawRep (start -4, step 2, clock bound) - value-level off-by-one territory; console draw '
              'claim semantics. Noticed, outside the property as stated and therefore not reported: WorkerThread::doSearch pushes the hash '
              'of the position AFTER the root move, so helper threads miss in-tree repetitions of the root position (never compared at the root level).')
@@ -71,6 +71,10 @@ def run(fb, rep, tier):
     c7_repetition_scan(fb, rep)
     c8_history_normal_form(fb, rep)
     c9_draw_rule_equality(fb, rep)
+    # .10 the normaliser C11.8 relies on keeps an en-passant square exactly when a pawn of the mover can legally capture on
+    # it: a weaker test leaves rule-equal positions with different keys and the repetition is not found (shared with C02.12)
+    from . import C02
+    C02.c12_ep_normaliser(fb, rep, 'C11.10')
 
 
 def c6_parallel_lists(fb, rep):
